@@ -527,6 +527,7 @@ class ScriptRunner:
             # a hook a continuation will call later (asyncio) or at once (Twisted): first in, first out
             if i < len(acts):
                 self.hook_acts.setdefault(name, []).append(acts[i])
+                self.put_now.append((name, acts[i]))
 
         def now(name, i):
             # a hook this very event calls synchronously
@@ -555,6 +556,14 @@ class ScriptRunner:
             fails = a["raises"] or (a["spec"] in ("", "n") and self.fw != "twisted")
             if fails and self.sess._transport is not None:
                 put("onLeave", 1)
+
+    def drop_refused(self):
+        """the message was refused (onMessage raised): the hooks it would have led to are not going to be called"""
+        for name, act in self.put_now:
+            q = self.hook_acts.get(name, [])
+            if any(a is act for a in q):
+                q.pop(next(i for i, a in enumerate(q) if a is act))
+        self.put_now = []
 
     def make_handler(self, h, obj):
         def handler(*a, **kw):
@@ -826,6 +835,7 @@ class ScriptRunner:
         self.cur = []
         self.hook_acts = {}
         self.now_acts = {}
+        self.put_now = []
         self.mapped = {}
         self.inv_futs = {}
         self.prog_fns = {}
@@ -834,6 +844,7 @@ class ScriptRunner:
         out = []
         for ev in script:
             self.cur = []
+            self.put_now = []
             head, _, acts = ev.partition(";")
             kind = head.split(",")[0]
             if kind in ("open", "closed"):
@@ -861,6 +872,7 @@ class ScriptRunner:
                     self.sess.onMessage(self.build_msg(m))
                 except Exception as e:  # noqa: BLE001
                     self.log("raise:" + exc_name(e))
+                    self.drop_refused()
                 self.acts = []
                 if kind == "m.welcome" and not faithful:
                     # the plain token means: delivered, and the loop ran until idle
